@@ -321,6 +321,12 @@ def _run_chunk(chunk):
     return res
 
 
+# share of a chunk taken by one case of an expensive kind (1 = a chunk of its own), so that the long cases
+# spread over the workers instead of queueing up in one
+HEAVY = {'XH': 1.0, 'WG': 1.0, 'XP': 1 / 6.0, 'XT': 0.1, 'ST': 0.02, 'A': 0.1, 'DC': 0.25, 'WIDE': 0.25, 'B': 0.25, 'MB': 0.25,
+         'HUGE': 0.5, 'CL': 0.25, 'CP': 0.25, 'CN': 0.25, 'ENV': 0.25}
+
+
 def _chunks(it, size, warmup=32, warmup_size=6):
     """Chunks of `size` cases; the first `warmup` chunks are small so that the first results (and
     with them an early stop on a badly broken tree) arrive quickly.  History cases (vmc.hist) run
@@ -331,7 +337,7 @@ def _chunks(it, size, warmup=32, warmup_size=6):
     for x in it:
         buf.append(x)
         limit = warmup_size if n < warmup else size
-        weight += limit if x[0] == 'XH' else (limit / 6.0 if x[0] == 'XP' else 1)
+        weight += limit * HEAVY.get(x[0], 0) or 1
         if weight >= limit:
             yield buf
             buf = []
